@@ -66,11 +66,70 @@ theorem lookup_writeAll (dest : Path) (its : List (Path × Node)) (fs : FS) (q :
       · have hb : (dest ++ it.1 == q) = false := by simpa using h
         simp [h, hb]
 
+theorem lookup_append (l fs : FS) (q : Path) : lookup (l ++ fs) q = (lookup l q).or (lookup fs q) := by
+  unfold lookup
+  rw [List.find?_append]
+  cases l.find? (fun e => e.1 == q) <;> simp
+
+theorem lookup_allDir : ∀ (l : FS) (q : Path), (∀ e ∈ l, e.2 = Node.dir) →
+    lookup l q = if l.any (fun e => e.1 == q) then some .dir else none := by
+  intro l q
+  induction l with
+  | nil => intro _; rfl
+  | cons e rest ih =>
+    intro h
+    have he : e.2 = Node.dir := h e (List.mem_cons_self ..)
+    have ih' := ih (fun x hx => h x (List.mem_cons_of_mem _ hx))
+    unfold lookup at ih' ⊢
+    by_cases hq : e.1 = q
+    · simp [List.find?_cons, hq, he]
+    · have hb : (e.1 == q) = false := by simpa using hq
+      simp only [List.find?_cons, hb, List.any_cons, Bool.false_or]
+      exact ih'
+
+theorem mem_dirEntries {p : Path} {e : Path × Node} (h : e ∈ dirEntries p) :
+    ∃ k, k < p.length ∧ e = (p.take (k + 1), Node.dir) := by
+  unfold dirEntries at h
+  obtain ⟨k, hk, rfl⟩ := List.mem_map.1 h
+  exact ⟨k, List.mem_range.1 hk, rfl⟩
+
+/-- `q` is one of the directories `create_dir_all p` makes -/
+def isMadeDir (p q : Path) : Bool := (dirEntries p).any (fun e => e.1 == q)
+
+theorem lookup_mkdirAll (p q : Path) (fs : FS) :
+    lookup (mkdirAll p fs) q = if isMadeDir p q then some .dir else lookup fs q := by
+  unfold mkdirAll isMadeDir
+  rw [lookup_append, lookup_allDir _ _ (fun e he => by obtain ⟨k, _, rfl⟩ := mem_dirEntries he; rfl)]
+  cases (dirEntries p).any (fun e => e.1 == q) <;> simp
+
+theorem isMadeDir_prefix {p q : Path} (h : isMadeDir p q = true) : q.isPrefixOf p = true ∧ q ≠ [] := by
+  unfold isMadeDir at h
+  obtain ⟨e, he, heq⟩ := List.any_eq_true.1 h
+  obtain ⟨k, hk, rfl⟩ := mem_dirEntries he
+  simp only [beq_iff_eq] at heq
+  subst heq
+  constructor
+  · rw [List.isPrefixOf_iff_prefix]; exact List.take_prefix _ _
+  · intro h0
+    have h1 : (p.take (k + 1)).length = k + 1 := by rw [List.length_take]; omega
+    rw [h0] at h1
+    simp at h1
+
+theorem isMadeDir_self {p : Path} (h : p ≠ []) : isMadeDir p p = true := by
+  unfold isMadeDir
+  apply List.any_eq_true.2
+  have hl : 0 < p.length := List.length_pos_iff.2 h
+  refine ⟨(p.take (p.length - 1 + 1), Node.dir), ?_, ?_⟩
+  · unfold dirEntries
+    exact List.mem_map.2 ⟨p.length - 1, List.mem_range.2 (by omega), rfl⟩
+  · have : p.length - 1 + 1 = p.length := by omega
+    simp [this]
+
 /-- what one iteration leaves at `q`, given what was there -/
 def stepValue (s : Step) (q : Path) (old : Option Node) : Option Node :=
   match s.items.reverse.find? (fun it => s.dest ++ it.1 == q) with
   | some it => some it.2
-  | none => if s.dest = q then some .dir else if s.dest.isPrefixOf q then none else old
+  | none => if isMadeDir s.dest q then some .dir else if s.dest.isPrefixOf q then none else old
 
 theorem lookup_applyStep (fs : FS) (s : Step) (q : Path) :
     lookup (applyStep fs s) q = stepValue s q (lookup fs q) := by
@@ -78,7 +137,7 @@ theorem lookup_applyStep (fs : FS) (s : Step) (q : Path) :
   rw [lookup_writeAll]
   cases hf : s.items.reverse.find? (fun it => s.dest ++ it.1 == q) with
   | some x => rfl
-  | none => simp only [lookup_write, lookup_removeAll]
+  | none => simp only [lookup_mkdirAll, lookup_removeAll]
 
 /-- a path below the destination of a step does not depend on what was there before -/
 theorem stepValue_inside (s : Step) (q : Path) (a b : Option Node) (h : s.dest.isPrefixOf q = true) :
@@ -88,12 +147,10 @@ theorem stepValue_inside (s : Step) (q : Path) (a b : Option Node) (h : s.dest.i
   | some x => rfl
   | none => simp [h]
 
-/-- a path not below the destination of a step is left alone -/
-theorem stepValue_outside (s : Step) (q : Path) (a : Option Node) (h : s.dest.isPrefixOf q = false) :
-    stepValue s q a = a := by
+/-- a path that is neither below the destination of a step nor on the way to it is left alone -/
+theorem stepValue_outside (s : Step) (q : Path) (a : Option Node) (h : s.dest.isPrefixOf q = false)
+    (h' : isMadeDir s.dest q = false) : stepValue s q a = a := by
   unfold stepValue
-  have hne : s.dest ≠ q := by
-    intro e; rw [e, isPrefixOf_self] at h; cases h
   cases hf : s.items.reverse.find? (fun it => s.dest ++ it.1 == q) with
   | some x =>
     exfalso
@@ -101,7 +158,14 @@ theorem stepValue_outside (s : Step) (q : Path) (a : Option Node) (h : s.dest.is
     simp only [beq_iff_eq] at this
     rw [← this, isPrefixOf_append] at h
     cases h
-  | none => simp [h, hne]
+  | none => simp [h, h']
+
+/-- a path on the way to the destination (a proper prefix of it) is a directory afterwards, whatever was there -/
+theorem stepValue_congr (s : Step) (q : Path) (a b : Option Node) (h : a = b ∨ s.dest.isPrefixOf q = true) :
+    stepValue s q a = stepValue s q b := by
+  rcases h with h | h
+  · rw [h]
+  · exact stepValue_inside s q a b h
 
 /-- seed independence, one path: equal before or wiped on the way ⇒ equal after -/
 theorem lookup_steps_congr (steps : List Step) (q : Path) (fs₁ fs₂ : FS)
@@ -128,14 +192,14 @@ theorem lookup_steps_congr (steps : List Step) (q : Path) (fs₁ fs₂ : FS)
 
 /-- frame: a path below no destination keeps what it had -/
 theorem lookup_steps_outside (steps : List Step) (q : Path) (fs : FS)
-    (h : ∀ s ∈ steps, s.dest.isPrefixOf q = false) :
+    (h : ∀ s ∈ steps, s.dest.isPrefixOf q = false) (h' : ∀ s ∈ steps, isMadeDir s.dest q = false) :
     lookup (steps.foldl applyStep fs) q = lookup fs q := by
   induction steps generalizing fs with
   | nil => rfl
   | cons s rest ih =>
     simp only [List.foldl_cons]
-    rw [ih _ (fun s' hs' => h s' (List.mem_cons_of_mem _ hs')), lookup_applyStep,
-      stepValue_outside s q _ (h s (List.mem_cons_self ..))]
+    rw [ih _ (fun s' hs' => h s' (List.mem_cons_of_mem _ hs')) (fun s' hs' => h' s' (List.mem_cons_of_mem _ hs')),
+      lookup_applyStep, stepValue_outside s q _ (h s (List.mem_cons_self ..)) (h' s (List.mem_cons_self ..))]
 
 /-! ### one packaged directory -/
 
@@ -145,7 +209,7 @@ def atRel (items : List (Path × Node)) (rel : Path) : Option Node :=
   | some it => some it.2
   | none => if rel = [] then some .dir else none
 
-theorem stepValue_rel (s : Step) (rel : Path) (old : Option Node) :
+theorem stepValue_rel (s : Step) (hne : s.dest ≠ []) (rel : Path) (old : Option Node) :
     stepValue s (s.dest ++ rel) old = atRel s.items rel := by
   unfold stepValue atRel
   have hfun : (fun it : Path × Node => s.dest ++ it.1 == s.dest ++ rel) = (fun it => it.1 == rel) := by
@@ -160,10 +224,18 @@ theorem stepValue_rel (s : Step) (rel : Path) (old : Option Node) :
   | some x => rfl
   | none =>
     by_cases hr : rel = []
-    · simp [hr]
-    · have : s.dest ≠ s.dest ++ rel := by
-        intro e
-        exact hr (List.self_eq_append_right.1 e)
+    · simp [hr, isMadeDir_self hne]
+    · have : isMadeDir s.dest (s.dest ++ rel) = false := by
+        cases hm : isMadeDir s.dest (s.dest ++ rel) with
+        | false => rfl
+        | true =>
+          exfalso
+          have h1 := (isMadeDir_prefix hm).1
+          rw [List.isPrefixOf_iff_prefix] at h1
+          have h2 := h1.length_le
+          simp only [List.length_append] at h2
+          have : rel.length = 0 := by omega
+          exact hr (List.length_eq_zero_iff.1 this)
       simp [hr, this, isPrefixOf_append]
 
 theorem atRel_of_mem {items : List (Path × Node)} {k : Path} {v : Node} (hm : (k, v) ∈ items)
@@ -206,26 +278,45 @@ theorem prefix_same_length {a b rel : Path} (h : a.isPrefixOf (b ++ rel) = true)
   · exact this
   · rfl
 
-/-- with destinations of one length and pairwise distinct, a fold of steps leaves below the destination of a step
-exactly what that step wrote -/
-theorem lookup_steps_inside (steps : List Step) (n : Nat) (hlen : ∀ a ∈ steps, a.dest.length = n)
+/-- with destinations of one (non-zero) length and pairwise distinct, a fold of steps leaves below the destination of a
+step exactly what that step wrote -/
+theorem lookup_steps_inside (steps : List Step) (n : Nat) (hpos : 0 < n) (hlen : ∀ a ∈ steps, a.dest.length = n)
     (hnd : (steps.map (·.dest)).Nodup) (s : Step) (hs : s ∈ steps) (rel : Path) (fs : FS) :
     lookup (steps.foldl applyStep fs) (s.dest ++ rel) = atRel s.items rel := by
   obtain ⟨pre, post, rfl⟩ := List.append_of_mem hs
   rw [List.foldl_append, List.foldl_cons]
+  have hsl : s.dest.length = n := hlen s (by simp)
+  have hne : s.dest ≠ [] := by
+    intro h0; rw [h0] at hsl; simp at hsl; omega
+  have hdiff : ∀ s' ∈ post, s'.dest ≠ s.dest := by
+    intro s' hs' heq
+    simp only [List.map_append, List.map_cons] at hnd
+    have h2 := (List.nodup_append.1 hnd).2.1
+    have h3 := (List.nodup_cons.1 h2).1
+    exact h3 (heq ▸ List.mem_map.2 ⟨s', hs', rfl⟩)
   have hpost : ∀ s' ∈ post, s'.dest.isPrefixOf (s.dest ++ rel) = false := by
     intro s' hs'
     cases hp : s'.dest.isPrefixOf (s.dest ++ rel) with
     | false => rfl
     | true =>
+      exact absurd (prefix_same_length hp ((hlen s' (by simp [hs'])).trans hsl.symm)) (hdiff s' hs')
+  have hpost' : ∀ s' ∈ post, isMadeDir s'.dest (s.dest ++ rel) = false := by
+    intro s' hs'
+    cases hm : isMadeDir s'.dest (s.dest ++ rel) with
+    | false => rfl
+    | true =>
       exfalso
-      have heq : s'.dest = s.dest := prefix_same_length hp
-        ((hlen s' (by simp [hs'])).trans (hlen s (by simp)).symm)
-      simp only [List.map_append, List.map_cons] at hnd
-      have h2 := (List.nodup_append.1 hnd).2.1
-      have h3 := (List.nodup_cons.1 h2).1
-      exact h3 (heq ▸ List.mem_map.2 ⟨s', hs', rfl⟩)
-  rw [lookup_steps_outside post _ _ hpost, lookup_applyStep, stepValue_rel]
+      have h1 := (isMadeDir_prefix hm).1
+      have h1' := h1
+      rw [List.isPrefixOf_iff_prefix] at h1'
+      have h2 := h1'.length_le
+      have h3 : s'.dest.length = n := hlen s' (by simp [hs'])
+      simp only [List.length_append] at h2
+      have hr : rel = [] := List.length_eq_zero_iff.1 (by omega)
+      subst hr
+      have h4 : (s.dest).isPrefixOf (s'.dest ++ []) = true := by simpa using h1
+      exact hdiff s' hs' (prefix_same_length h4 (hsl.trans h3.symm)).symm
+  rw [lookup_steps_outside post _ _ hpost hpost', lookup_applyStep, stepValue_rel s hne]
 
 /-! ### main binary, entries of a packaged directory -/
 
@@ -250,6 +341,7 @@ theorem mem_libcnbItems {profile : Profile} {d p m : String} {adds : List String
     it ∈ libcnbItems profile d p m adds ↔
       it = (["buildpack.toml"], .file (.raw d)) ∨ it = (["bin"], .dir) ∨
       it = (["bin", "build"], .file (.artifact p m profile)) ∨ it = (["bin", "detect"], .link "build") ∨
+      (adds ≠ [] ∧ it = ([".libcnb-cargo"], .dir)) ∨
       (adds ≠ [] ∧ it = (additionalDir, .dir)) ∨
       (∃ n ∈ adds, it = (additionalDir ++ [n], .file (.artifact p n profile))) ∨
       it = (["package.toml"], .file (.pkg libcnbPackageToml)) := by
@@ -267,20 +359,22 @@ theorem mem_libcnbItems {profile : Profile} {d p m : String} {adds : List String
         · exact Or.inr (Or.inl h)
         · exact Or.inr (Or.inr (Or.inl h))
         · exact Or.inr (Or.inr (Or.inr (Or.inl h)))
-      · rcases h with h | h
+      · rcases h with h | h | h
         · exact Or.inr (Or.inr (Or.inr (Or.inr (Or.inl h))))
+        · exact Or.inr (Or.inr (Or.inr (Or.inr (Or.inr (Or.inl h)))))
         · obtain ⟨n, hn, he⟩ := h
-          exact Or.inr (Or.inr (Or.inr (Or.inr (Or.inr (Or.inl ⟨n, hn, he.symm⟩)))))
-      · exact Or.inr (Or.inr (Or.inr (Or.inr (Or.inr (Or.inr h)))))
+          exact Or.inr (Or.inr (Or.inr (Or.inr (Or.inr (Or.inr (Or.inl ⟨n, hn, he.symm⟩))))))
+      · exact Or.inr (Or.inr (Or.inr (Or.inr (Or.inr (Or.inr (Or.inr h))))))
     · intro h
-      rcases h with h | h | h | h | h | h | h
+      rcases h with h | h | h | h | h | h | h | h
       · exact Or.inl (Or.inl (Or.inl h))
       · exact Or.inl (Or.inl (Or.inr (Or.inl h)))
       · exact Or.inl (Or.inl (Or.inr (Or.inr (Or.inl h))))
       · exact Or.inl (Or.inl (Or.inr (Or.inr (Or.inr h))))
       · exact Or.inl (Or.inr (Or.inl h))
+      · exact Or.inl (Or.inr (Or.inr (Or.inl h)))
       · obtain ⟨n, hn, he⟩ := h
-        exact Or.inl (Or.inr (Or.inr ⟨n, hn, he.symm⟩))
+        exact Or.inl (Or.inr (Or.inr (Or.inr ⟨n, hn, he.symm⟩)))
       · exact Or.inr h
 
 open CnbVerif.Spec.Packaging in
@@ -297,45 +391,46 @@ theorem libcnbItems_packaged (profile : Profile) (d p m : String) (adds : List S
   · apply key
     · exact mem_libcnbItems.2 (Or.inl rfl)
     · intro it hit hk
-      rcases mem_libcnbItems.1 hit with rfl | rfl | rfl | rfl | ⟨_, rfl⟩ | ⟨n, _, rfl⟩ | rfl <;>
+      rcases mem_libcnbItems.1 hit with rfl | rfl | rfl | rfl | ⟨_, rfl⟩ | ⟨_, rfl⟩ | ⟨n, _, rfl⟩ | rfl <;>
         first | rfl | (simp [additionalDir, relBuildpackToml] at hk)
   · apply key
     · exact mem_libcnbItems.2 (Or.inr (Or.inl rfl))
     · intro it hit hk
-      rcases mem_libcnbItems.1 hit with rfl | rfl | rfl | rfl | ⟨_, rfl⟩ | ⟨n, _, rfl⟩ | rfl <;>
+      rcases mem_libcnbItems.1 hit with rfl | rfl | rfl | rfl | ⟨_, rfl⟩ | ⟨_, rfl⟩ | ⟨n, _, rfl⟩ | rfl <;>
         first | rfl | (simp [additionalDir, relBin] at hk)
   · apply key
     · exact mem_libcnbItems.2 (Or.inr (Or.inr (Or.inl rfl)))
     · intro it hit hk
-      rcases mem_libcnbItems.1 hit with rfl | rfl | rfl | rfl | ⟨_, rfl⟩ | ⟨n, _, rfl⟩ | rfl <;>
+      rcases mem_libcnbItems.1 hit with rfl | rfl | rfl | rfl | ⟨_, rfl⟩ | ⟨_, rfl⟩ | ⟨n, _, rfl⟩ | rfl <;>
         first | rfl | (simp [additionalDir, relBuild] at hk)
   · apply key
     · exact mem_libcnbItems.2 (Or.inr (Or.inr (Or.inr (Or.inl rfl))))
     · intro it hit hk
-      rcases mem_libcnbItems.1 hit with rfl | rfl | rfl | rfl | ⟨_, rfl⟩ | ⟨n, _, rfl⟩ | rfl <;>
+      rcases mem_libcnbItems.1 hit with rfl | rfl | rfl | rfl | ⟨_, rfl⟩ | ⟨_, rfl⟩ | ⟨n, _, rfl⟩ | rfl <;>
         first | rfl | (simp [additionalDir, relDetect] at hk)
   · intro a ha
     apply key
-    · exact mem_libcnbItems.2 (Or.inr (Or.inr (Or.inr (Or.inr (Or.inr (Or.inl ⟨a, ha, rfl⟩))))))
+    · exact mem_libcnbItems.2 (Or.inr (Or.inr (Or.inr (Or.inr (Or.inr (Or.inr (Or.inl ⟨a, ha, rfl⟩)))))))
     · intro it hit hk
-      rcases mem_libcnbItems.1 hit with rfl | rfl | rfl | rfl | ⟨_, rfl⟩ | ⟨n, _, rfl⟩ | rfl <;>
+      rcases mem_libcnbItems.1 hit with rfl | rfl | rfl | rfl | ⟨_, rfl⟩ | ⟨_, rfl⟩ | ⟨n, _, rfl⟩ | rfl <;>
         first | (simp [additionalDir, relAdditional] at hk; done) | skip
       simp only [additionalDir, relAdditional, List.cons_append, List.nil_append, List.cons.injEq, and_true, true_and] at hk
       subst hk; rfl
   · apply key
-    · exact mem_libcnbItems.2 (Or.inr (Or.inr (Or.inr (Or.inr (Or.inr (Or.inr rfl))))))
+    · exact mem_libcnbItems.2 (Or.inr (Or.inr (Or.inr (Or.inr (Or.inr (Or.inr (Or.inr rfl)))))))
     · intro it hit hk
-      rcases mem_libcnbItems.1 hit with rfl | rfl | rfl | rfl | ⟨_, rfl⟩ | ⟨n, _, rfl⟩ | rfl <;>
+      rcases mem_libcnbItems.1 hit with rfl | rfl | rfl | rfl | ⟨_, rfl⟩ | ⟨_, rfl⟩ | ⟨n, _, rfl⟩ | rfl <;>
         first | rfl | (simp [additionalDir, relPackageToml] at hk)
   · intro rel n h
     rcases atRel_some h with ⟨hr, _⟩ | hm
     · exact Or.inl hr
-    · rcases mem_libcnbItems.1 hm with he | he | he | he | ⟨hne, he⟩ | ⟨a, ha, he⟩ | he <;>
+    · rcases mem_libcnbItems.1 hm with he | he | he | he | ⟨hne, he⟩ | ⟨hne, he⟩ | ⟨a, ha, he⟩ | he <;>
         simp only [Prod.mk.injEq] at he <;> obtain ⟨h1, h2⟩ := he
       · exact Or.inr (Or.inl h1)
       · exact Or.inr (Or.inr (Or.inl h1))
       · exact Or.inr (Or.inr (Or.inr (Or.inl h1)))
       · exact Or.inr (Or.inr (Or.inr (Or.inr (Or.inl h1))))
+      · exact Or.inr (Or.inr (Or.inr (Or.inr (Or.inr (Or.inr (Or.inl ⟨hne, h2, Or.inl h1⟩))))))
       · exact Or.inr (Or.inr (Or.inr (Or.inr (Or.inr (Or.inr (Or.inl ⟨hne, h2, Or.inr h1⟩))))))
       · exact Or.inr (Or.inr (Or.inr (Or.inr (Or.inr (Or.inr (Or.inr ⟨a, ha, h1⟩))))))
       · exact Or.inr (Or.inr (Or.inr (Or.inr (Or.inr (Or.inl h1)))))
@@ -726,6 +821,23 @@ theorem built_lookup {ws : Workspace} {inv : Str} {cfg : Config} {seed : FS} {re
         have hab' : (fun bp : Buildpack => dirName bp.id) a = (fun bp : Buildpack => dirName bp.id) b :=
           (List.cons.inj (List.cons.inj (List.cons.inj hab).2).2).1
         exact inj_of_nodup_map (fun bp : Buildpack => dirName bp.id) hnames (hsub a ha) (hsub b hb') hab'
-    rw [hfs, ← e2, lookup_steps_inside steps 3 hlen hndd s hs rel seed]
+    rw [hfs, ← e2, lookup_steps_inside steps 3 (by omega) hlen hndd s hs rel seed]
+
+open CnbVerif.Spec.PathDenote in
+theorem isAbsolute_joinPath {a b : Str} (h : isAbsolute a = true) : isAbsolute (joinPath a b) = true := by
+  cases a with
+  | nil => simp [isAbsolute] at h
+  | cons c cs =>
+    have hc : c = '/' := by simpa [isAbsolute] using h
+    subst hc
+    unfold joinPath
+    simp only [List.isEmpty_cons, Bool.false_eq_true, if_false]
+    split <;> simp [isAbsolute]
+
+open CnbVerif.Spec.PathDenote in
+theorem isAbsolute_destStr {pk : Str} (cfg : Config) (id : String) (h : isAbsolute pk = true) :
+    isAbsolute (destStr pk cfg id) = true := by
+  unfold destStr
+  exact isAbsolute_joinPath (isAbsolute_joinPath (isAbsolute_joinPath h))
 
 end CnbVerif.Packager
